@@ -131,13 +131,31 @@ def run_system(case, rng, cls):
             edited = SIDES[ke][je]
             phi.apply_BCs()                  # clean state: no pending modification flags from construction
             fe = getattr(phi.BCs, edited)
-            if rng.random() < 0.5:
-                fe.c = np.asarray(fe.c) + 0.5
-            elif np.all(np.asarray(fe.a) == 0):
-                fe.fixedGradient(0.3)
+            how = str(rng.choice(['setter', 'setter', 'untracked+apply_BCs', 'replace-object+apply_BCs']))
+            if how == 'setter':
+                if rng.random() < 0.5:
+                    fe.c = np.asarray(fe.c) + 0.5
+                elif np.all(np.asarray(fe.a) == 0):
+                    fe.fixedGradient(0.3)
+                else:
+                    fe.fixedValue(-0.4)
+            elif how == 'untracked+apply_BCs':
+                # in-place operations that the dirty flags cannot see (documented TrackedArray limitation), followed by the
+                # explicit apply_BCs() the documentation prescribes for such expert use
+                if rng.random() < 0.5:
+                    fe.c.fill(float(rng.normal()))
+                else:
+                    np.copyto(fe.c, np.asarray(fe.c) * 0.5 - 0.7)
+                phi.apply_BCs()
             else:
-                fe.fixedValue(-0.4)
+                from copy import deepcopy
+                nb = deepcopy(phi.BCs)
+                getattr(nb, edited).c = np.asarray(fe.c) * 2.0 + 0.9
+                nb.modified = False
+                phi.BCs = nb
+                phi.apply_BCs()
             cov['side_edit:' + edited] = 1
+            cov['side_edit_how:' + how] = 1
     terms = draw_terms(rng, m, g, phi)
     Ms, bs = assemble(phi, terms)
     kinds = sorted(k for _, k in terms)
@@ -335,7 +353,8 @@ def floors(agg, tier):
             if agg['cov'].get('kind:%s:%s' % (kind, cls), 0) < need:
                 out.append('kind:%s:%s < %d' % (kind, cls, need))
     for k in ('termkind:pair:transient', 'termkind:M:-diffusion', 'termkind:M:upwind', 'termkind:M:central', 'termkind:v:constsource',
-              'termkind:v:tvd', 'termkind:pair:generic', 'default_path_checked', 'side_edit:left', 'side_edit:right', 'side_edit:bottom', 'side_edit:top', 'side_edit:back', 'side_edit:front'):
+              'termkind:v:tvd', 'termkind:pair:generic', 'default_path_checked', 'side_edit:left', 'side_edit:right', 'side_edit:bottom', 'side_edit:top', 'side_edit:back', 'side_edit:front',
+              'side_edit_how:setter', 'side_edit_how:untracked+apply_BCs', 'side_edit_how:replace-object+apply_BCs'):
         if agg['cov'].get(k, 0) < 5:
             out.append('%s < 5' % k)
     return out
